@@ -615,7 +615,7 @@ func (C *Contracts) ParseContractText(origin, text string) {
 				errf(el.no, "%v in %q", err, rest)
 				continue
 			}
-			cl := Clause{Label: lab, Expr: e, Src: rest, UsesCallres: strings.Contains(rest, "callres(") || strings.Contains(rest, "callarg(")}
+			cl := Clause{Label: lab, Expr: e, Src: rest, UsesCallres: strings.Contains(rest, "callres(") || strings.Contains(rest, "callarg(") || strings.Contains(rest, "called(")}
 			switch {
 			case el.kw == "invariant" && curL != nil:
 				if cl.Label == "" {
